@@ -290,6 +290,14 @@ class AndersonCD(BaseSolver):
         return results
 
     def custom_checks(self, X, y, datafit, penalty):
+        # group datafits expose one Lipschitz constant per group, not per feature
+        if hasattr(datafit, "grp_ptr"):
+            raise ValueError(
+                f"`{datafit.__class__.__name__}` is a group datafit: its `get_lipschitz` "
+                "returns one constant per group. It is not compatible with solver "
+                "AndersonCD, use `GroupBCD` instead."
+            )
+
         # check datafit support sparse data
         check_attrs(
             datafit, solver=self,
